@@ -106,6 +106,15 @@ func RunFaults(e *Env) {
 	wg.Wait()
 	RunStorm(e, "C07")
 	runCorrFlap(e, "C07")
+	for rep := 0; rep < e.Pick(18, 300); rep++ {
+		if e.Of > 1 && rep%e.Of != e.Batch {
+			continue
+		}
+		if R.NumViolations() > 8 {
+			break
+		}
+		runCancelledAfterWrite(e, rep)
+	}
 }
 
 func unavailableType(line string) bool {
@@ -454,6 +463,56 @@ func runFaultCase(e *Env, idx int, c FCase) {
 		} else {
 			R.Count("outcome.incomplete", 1)
 		}
+	}
+	// recovery: when the only failures were handler errors, one more call on the same connections in which every handler
+	// succeeds: a node that failed a call earlier is a healthy node now - its reply is shown to the quorum function and it is
+	// not reported ("each failing node ... carrying the handler's status" is about the call the handler failed, not later ones)
+	onlyHandlerErrors := false
+	for _, k := range c.Fail {
+		if k == "handler-error" {
+			onlyHandlerErrors = true
+		}
+	}
+	for _, k := range c.Fail {
+		onlyHandlerErrors = onlyHandlerErrors && (k == "" || k == "handler-error")
+	}
+	if onlyHandlerErrors {
+		tok := h.NewToken()
+		req := &puppet.Req{Call: tok, Seq: tok, Kind: 7}
+		for i := 0; i < c.N; i++ {
+			dir.Set(tok, cl.IDs[i], &Plan{Act: ActReply}).Open()
+		}
+		mon := &h.CallMon{Token: tok, Orig: req, Decide: func(inv *h.Inv) (bool, int) { return len(inv.Keys) >= c.N, len(inv.Keys) }}
+		cl.QS.Register(mon)
+		ctx, cancel := context.WithTimeout(context.Background(), 30*time.Second)
+		defer cancel()
+		var out Outcome
+		t := h.Go("c07:recovery:"+c.Variant, func() {
+			switch c.Variant {
+			case "QC":
+				out = CallQC(cl.Cfg, "QC", ctx, req, nil)
+			case "Async":
+				out = StartAsync(cl.Cfg, "Async", ctx, req, nil).Get()
+			default:
+				co := StartCorr(cl.Cfg, "Corr", ctx, req, nil)
+				<-co.Done()
+				_, lvl, err := co.Raw()
+				out = Outcome{Err: err, Level: lvl}
+			}
+		})
+		hi := h.Await(t, e.W+4*time.Second)
+		switch {
+		case hi.Verdict == h.Hung:
+			R.Violate("left-waiting:"+hi.Sig, fmt.Sprintf("%s after handler errors of nodes %v: the next call, which every handler answers, does not complete", c.Variant, F), map[string]any{"case": c, "stack": hi.Stack})
+			return
+		case hi.Verdict == h.Inconclusive:
+			R.Inconc("await: " + hi.State)
+			return
+		case out.Err != nil:
+			R.Violate("earlier-handler-error-sticks-to-the-node", fmt.Sprintf("%s: nodes %v answered an earlier call with a handler error; in the next call every handler succeeds, yet the call fails: %v", c.Variant, F, out.Err), det("recovery call", out, mon.Invs()))
+			return
+		}
+		R.Count("recovery_calls_after_handler_errors", 1)
 	}
 	ks := append([]string(nil), c.Fail...)
 	sort.Strings(ks)
